@@ -71,6 +71,7 @@ impl Property for C14 {
         }
         let mut cfg = InstCfg::new(regime);
         cfg.allow_deps = false;
+        cfg.tolerance_candidates = true;
         cfg.max_active = 4;
         cfg.max_removed = 3;
         cfg.func.max_terms = 4;
